@@ -41,10 +41,10 @@ open Aiocoap.MsgLayer (Remote Token Wire OutMsg MType)
 /-- where the coroutine of a render task is suspended -/
 inductive Phase
   | fresh        -- task created, coroutine not entered yet
-  | firstRender  -- `first_response = await self.render(pipe.request)`   (interfaces.py:503)
-  | waitTrig     -- `await servobs._trigger`                             (interfaces.py:526)
+  | firstRender  -- `first_response = await self.render(pipe.request)`   (interfaces.py:507)
+  | waitTrig     -- `await servobs._trigger`                             (interfaces.py:529)
   | loopRender   -- `response = await self.render(pipe.request)`         (interfaces.py:538)
-  | plainRender  -- `Resource._render_to_pipe`: `await self.render(req)` (interfaces.py:437-445)
+  | plainRender  -- `Resource._render_to_pipe`: `await self.render(req)` (interfaces.py:430-444)
   | done
 deriving DecidableEq, Repr
 
@@ -177,8 +177,8 @@ def finish (t : Task) (r : Resp) : Task × List Act :=
             cbRuns := if t.observe && t.accepted then t.cbRuns + 1 else t.cbRuns },
    if r.exc then cb ++ [.emit r.code none r.body true] else .emit r.code none r.body true :: cb)
 
-/-- a notification's content is ready (interfaces.py:543-560).  Leaves the task ended, or back at
-`await servobs._trigger` with the future not done (it was replaced at :533 and nothing ran since) -/
+/-- a notification's content is ready (interfaces.py:552-560).  Leaves the task ended, or back at
+`await servobs._trigger` with the future not done (it was replaced at :535 and nothing ran since) -/
 def afterLoop (t : Task) (r : Resp) : Task × List Act :=
   if r.exc || t.late || !success r.code then finish t r
   else
@@ -189,7 +189,7 @@ def renderResp (val : Nat) : Plan → Option Resp
   | .imm code exc => some { code, body := if exc then 0 else val, exc }
   | .susp => none
 
-/-- at `await servobs._trigger` (interfaces.py:526-541): a done future does not suspend -/
+/-- at `await servobs._trigger` (interfaces.py:529-548): a done future does not suspend -/
 def atAwait (val : Nat) (t : Task) (plan : Plan) : Task × List Act :=
   match t.trig with
   | none => ({ t with phase := .waitTrig, runnable := false }, [])
@@ -203,7 +203,7 @@ def atAwait (val : Nat) (t : Task) (plan : Plan) : Task × List Act :=
       ({ t with trig := none, phase := .loopRender, renderVer := val, renderOut := none,
                 runnable := false }, [.render val])
 
-/-- the first response is ready (interfaces.py:505-523) -/
+/-- the first response is ready (interfaces.py:509-525) -/
 def afterFirst (val : Nat) (t : Task) (r : Resp) (plan : Plan) : Task × List Act :=
   if r.exc || !t.accepted || t.early || !success r.code then finish t r
   else
@@ -216,7 +216,7 @@ def cancelStep (t : Task) : Task × List Act :=
             cbRuns := if t.observe && t.accepted then t.cbRuns + 1 else t.cbRuns },
    if t.observe && t.accepted then [.callback] else [])
 
-/-- first step of the task: `add_observation` (resource.py:158-166) and the first render -/
+/-- first step of the task: `add_observation` (resource.py:159-167) and the first render -/
 def startTask (val : Nat) (t : Task) (plan : Plan) (accept : Bool) : Task × List Act :=
   if t.observe then
     match renderResp val plan with
@@ -265,7 +265,7 @@ def mkMsg (c : State) (code : Nat) (obs : Option Nat) (body : Nat) : OutMsg :=
 
 /-- one effect of the coroutine of pipe `sv` on the resource and the message layer.
 `emit`: `pipe.add_response` → `TokenManager.process_request.on_event` → `send_message`;
-`callback`: the `_cancel` closure of `resource.ObservableResource.add_observation` (:161-163) -/
+`callback`: the `_cancel` closure of `resource.ObservableResource.add_observation` (:162-164) -/
 def execAct (c : State) (sv : Nat) : Act → State × List Out
   | .accept => ({ c with observations := c.observations ++ [sv] }, [.count (c.observations.length + 1)])
   | .render ver => (c, [.render sv ver])
@@ -285,13 +285,13 @@ def exec (c : State) (sv : Nat) : List Act → State × List Out
 
 -- the resource side -----------------------------------------------------------------------------
 
-/-- `ServerObservation.trigger(response, is_last=…)` (protocol.py:1348-1363) at version `ver` -/
+/-- `ServerObservation.trigger(response, is_last=…)` (protocol.py:1350-1365) at version `ver` -/
 def trigTask (t : Task) (v : Option Resp) (isLast : Bool) (ver : Nat) : Task :=
   if !(t.observe && t.accepted) || t.phase == .done || t.phase == .fresh then t
   else { t with late := t.late || isLast, trig := some v, seen := ver,
                 runnable := t.runnable || t.phase == .waitTrig }
 
-/-- `ServerObservation.deregister()` (protocol.py:1333-1346): the first call only sets the
+/-- `ServerObservation.deregister()` (protocol.py:1335-1348): the first call only sets the
 early-deregistration flag, any later one triggers a 5.00 notification -/
 def deregTask (t : Task) (ver : Nat) : Task :=
   if !(t.observe && t.accepted) || t.phase == .done || t.phase == .fresh then t
@@ -326,7 +326,7 @@ def handle (c : State) : Ev → State × List Out
   | .fireExpire remote mid => netEvent c (.fireExpire remote mid)
   | .shutdown => netEvent c .shutdown
   | .update resp =>
-    -- resource.py:172-177 `for o in self._observations: o.trigger(response)`
+    -- resource.py:173-178 `for o in self._observations: o.trigger(response)`
     let ver := c.value + 1
     ({ c with value := ver,
               tasks := c.tasks.map fun t =>
